@@ -43,7 +43,7 @@ class Tr(ExprTr):
         return super().expr(n)
 
 
-def translate(repo_root='/repo'):
+def translate(repo_root=os.environ.get('VERIF_REPO', '/repo')):
     path = os.path.join(repo_root, 'pyroll/core/grooves/generic_elongation.py')
     tree = ast.parse(open(path).read())
     init = _method(tree, '__init__')
@@ -185,7 +185,7 @@ def translate(repo_root='/repo'):
     return dict(junctions=junctions, funcs=funcs, pieces=pieces, default=default, segments=segments, points=points, items=items)
 
 
-def generate(repo_root='/repo'):
+def generate(repo_root=os.environ.get('VERIF_REPO', '/repo')):
     d = translate(repo_root)
     L = ["(* GENERATED by tools/py2coq/groove_td.py from generic_elongation.py. Do not edit. *)",
          "From PyrollLib Require Import Expr Groove.", "Open Scope string_scope.", ""]
